@@ -467,6 +467,9 @@ class Base(_BaseClass):
         returns (wellformed, expected) which the last prod might have set
         """
         wellformed = True
+        if new is None:
+            # the default productions report through ``new``
+            new = {'wellformed': True}
 
         if initialtoken:
             # add initialtoken to tokenizer
@@ -488,7 +491,7 @@ class Base(_BaseClass):
                 else:
                     wellformed = False
                     self._log.error('Unexpected token (%s, %s, %s, %s)' % token)
-        return wellformed, expected
+        return wellformed and new.get('wellformed', True), expected
 
 
 class Base2(Base, _NewBase):
